@@ -5,27 +5,27 @@
   in known_findings.json) or a **scope limit**.  `exprInD` is "no reason".
 
   Known-finding classes (what mongomock does / what the rules say):
-    arraypath      a path through an array raises KeyError unless every element has the field;
-                   numeric components index arrays        / collect the field of sub-documents
-    arrayliteral   an array in expression position is returned unevaluated, also as the
-                   single argument `[x]` of a unary operator / its elements are evaluated
-    scalararg      a variadic operator given a bare operand raises / takes it as one operand
-    boolarith      booleans count as 0/1 in arithmetic and as indexes / are not numbers
+    arraypath      a numeric path component that meets an array indexes it / names a field of
+                   its sub-documents (the other half of this class — a path through an array was
+                   missing unless every element had the field — was repaired by f19df5e)
+    scalararg      an operator that takes a fixed number (not one) of arguments, given a bare
+                   operand, iterates over it (`{$eq: "$a"}` compares two characters) / is rejected
+                   (the variadic operators and `$sum $avg $min $max` were repaired by f32e005,
+                   e7bd52b: a bare operand is a one-item argument list)
     boolnum        `$eq $ne $in` and array comparison identify true/false with 1/0 (Python ==)
     docorder       documents equal up to key order compare equal (Python ==)
-    letmissing     a `$let` variable bound to a missing value makes the whole `$let` missing
     andstrict      `$and` parses every operand: one that raises after the first false operand
                    makes the `$and` raise              / evaluation stops at the first false
                    (kept: C20 relies on an unsupported operator in that position raising)
-    laxargs        variable names that do not start with a lower-case letter are accepted / error
     accbaremissing `{$sum: "$zz"}` (also `$avg $min $max`) with the one bare operand missing makes
                    the computed field missing / is 0 for `$sum`, null for the others
   Repaired in the library (no longer classes; their witnesses are run as ordinary cases):
     exprtruth, exprmissing, strcasecmp, numtype, adddate, concatstr, nullarg, condkeys, undefvar,
-    filtertruth, mapmissing, missingcmp, and of laxargs the parts `$ifNull` with one operand, `$let` / `$cond`
-    with extra fields; minmaxtypes (`$min` / `$max` over values of several types raised TypeError,
-    repaired by 94aa9ad) and sumbool (`$sum` / `$avg` counted booleans as 0 / 1, repaired by
-    2f66991): `$sum $avg $min $max` are inside the fragment now, with no class of their own.
+    filtertruth, mapmissing, missingcmp, minmaxtypes, sumbool; arrayliteral (fce7e55, 9ff1475: an
+    array in expression position evaluates its items, `{$not: [x]}` takes `x`), boolarith
+    (10aa9e1: booleans are rejected in arithmetic and as indexes), letmissing (9957044: a `$let`
+    variable bound to a missing value is missing where it is used), laxargs (442ff51, b53c397:
+    `$ifNull` arity, extra fields, variable names).
   Scope limits: specraises (the rules reject the expression: no value to compare),
     specunmodelled (no oracle), deepcmp (comparison of documents, nested arrays, ObjectIds, aware
     dates), dupkeys, tzform (the `{date:, timezone:}` argument form of the date operators),
@@ -121,7 +121,7 @@ def unproved (k : String) : List String :=
 /-- reasons local to a strict operator, from its evaluated operands -/
 def strictReasons (k : String) (vs : List (Option Val)) : List String :=
   if arithOps.contains k then
-    (if vs.any isBoolO then ["boolarith"] else [])
+    []                             -- booleans are rejected by the code as by the rules
   else if ["$eq", "$ne", "$gt", "$gte", "$lt", "$lte"].contains k then
     match vs with
     | [some a, some b] =>
@@ -136,10 +136,6 @@ def strictReasons (k : String) (vs : List (Option Val)) : List String :=
     match vs with
     | [some x, some (.arr xs)] => (xs.map (eqReasons x)).flatten.eraseDups
     | _ => []
-  else if k = "$arrayElemAt" then
-    (match vs with
-     | [_, i] => (if isBoolO i then ["boolarith"] else [])
-     | _ => [])
   else if k = "$min" || k = "$max" then pairwiseReasons (presentOf vs)
   else []                          -- `$sum` / `$avg` included: every value that is not a number is ignored
 
@@ -149,14 +145,22 @@ def okReasons {α} (r : R α) : List String :=
   | .error .unmodelled => ["specunmodelled"]
   | .error _ => ["specraises"]
 
-/-- does the path run through an array of the document? -/
-def pathThroughArray : List String → Val → Bool
+/-- does the path meet an array at a numeric component?  (The code takes the component as an
+    index into the array, the rules as the name of a field of its documents.) -/
+def pathIndexesArray : List String → Val → Bool
   | [], _ => false
   | p :: ps, .doc fs =>
     match dget p fs with
-    | some v => pathThroughArray ps v
+    | some v => pathIndexesArray ps v
     | none => false
-  | _ :: _, .arr _ => true
+  | p :: ps, .arr xs =>
+    (match keyInt p with | .ok none => false | _ => true) ||
+    xs.any (fun x =>
+      match x with
+      | .doc gs => (match dget p gs with
+        | some v => pathIndexesArray ps v
+        | none => false)
+      | _ => false)
   | _ :: _, _ => false
 
 def strReasons (root : Val) (env : Env) (s : String) : List String :=
@@ -165,14 +169,14 @@ def strReasons (root : Val) (env : Env) (s : String) : List String :=
     match splitDotsChars r [] with
     | name :: rest =>
       match env.lookup name with
-      | some (some v) => if pathThroughArray rest v then ["arraypath"] else []
+      | some (some v) => if pathIndexesArray rest v then ["arraypath"] else []
       | some none => []
       | none =>
         if name = "ROOT" || name = "CURRENT" then
-          (if pathThroughArray rest root then ["arraypath"] else [])
+          (if pathIndexesArray rest root then ["arraypath"] else [])
         else []                 -- `$$REMOVE` is missing; any other name is rejected by the rules
     | [] => []
-  | .field r => if pathThroughArray (splitDotsChars r []) root then ["arraypath"] else []
+  | .field r => if pathIndexesArray (splitDotsChars r []) root then ["arraypath"] else []
   | .lit => []
 
 /-- `$and` stops at the first false operand by the rules; the code parses every operand, so an
@@ -187,11 +191,16 @@ def unaryOps : List String :=
   ["$abs", "$ceil", "$floor", "$trunc", "$not", "$toLower", "$toUpper", "$isArray", "$isNumber",
    "$toString"] ++ datePartOps
 
+/-- the strict operators that take a bare operand as their one operand: the unary ones, `$size`,
+    `$concatArrays`, and the variadic `$add $multiply $concat` -/
+def bareOk (k : String) : Bool :=
+  unaryOps.contains k || ["$size", "$concatArrays", "$add", "$multiply", "$concat"].contains k
+
 mutual
   /-- reasons for expression `e` on `root` under `env`, children included -/
   def rExpr (root : Val) (env : Env) : Val → List String
     | .str s => strReasons root env s
-    | .arr xs => if isConstList xs then [] else ["arrayliteral"]
+    | .arr xs => rList root env xs
     | .doc fs =>
       if hasDollarKey' fs then rOperator root env fs
       else (if nodupKeys fs then [] else ["dupkeys"]) ++ rFields root env fs
@@ -213,7 +222,7 @@ mutual
       if k = "$literal" then []
       else if strictOps.contains k then
         unproved k ++ rList root env xs ++
-        (if unaryOps.contains k then ["arrayliteral"] else []) ++
+        (if unaryOps.contains k && xs.any hasTzKeys then ["tzform"] else []) ++
         (match sList root env xs with
          | .ok vs => strictReasons k vs
          | .error _ => [])
@@ -224,29 +233,17 @@ mutual
     | [(k, .doc gs)] =>
       if k = "$literal" then []
       else if k = "$let" then
-        (match dget "vars" gs with
-         | some (.doc vs) => if !(vs.all (fun kv => userVarName kv.1)) then ["laxargs"] else []
-         | _ => []) ++
         rVarsAt root env gs ++
         (match sVarsAt root env gs with
-         | .ok bs =>
-           (if bs.any (fun b => b.2.isNone) then ["letmissing"] else []) ++
-           rAt root (bs.reverse ++ env) "in" gs
-         | .error _ =>
-           match dget "vars" gs with
-           | some (.doc vs) =>
-             if vs.any (fun kv => match sEval root env kv.2 with | .ok none => true | _ => false)
-             then ["letmissing"] else []
-           | _ => [])
+         | .ok bs => rAt root (bs.reverse ++ env) "in" gs
+         | .error _ => [])
       else if k = "$map" then
-        (match asVar gs with | .ok _ => [] | .error _ => ["laxargs"]) ++
         rAt root env "input" gs ++
         (match asVar gs, sAt root env "input" gs with
          | .ok name, .ok (some (.arr items)) =>
            (items.map (fun item => rAt root ((name, some item) :: env) "in" gs)).flatten
          | _, _ => [])
       else if k = "$filter" then
-        (match asVar gs with | .ok _ => [] | .error _ => ["laxargs"]) ++
         rAt root env "input" gs ++
         (match asVar gs, sAt root env "input" gs with
          | .ok name, .ok (some (.arr items)) =>
@@ -257,17 +254,21 @@ mutual
       else if k = "$switch" then
         rBranchesAt root env gs ++ (if dhas "default" gs then rAt root env "default" gs else [])
       else if accOps.contains k then
-        -- the code iterates over the keys of the argument document
-        ["scalararg"] ++ okReasons (sEval root env (.doc gs)) ++ rExpr root env (.doc gs)
+        okReasons (sEval root env (.doc gs)) ++ rExpr root env (.doc gs) ++
+        (match sEval root env (.doc gs) with
+         | .ok (some (.arr xs)) => strictReasons k (xs.map some)
+         | .ok (some _) => []                     -- the one value the operator ranges over
+         | .ok none => ["accbaremissing"]
+         | .error _ => [])
       else if strictOps.contains k then
         unproved k ++ (if hasTzKeys (.doc gs) then ["tzform"] else []) ++
         okReasons (sEval root env (.doc gs)) ++ rExpr root env (.doc gs) ++
-        (if unaryOps.contains k || k = "$size" || k = "$concatArrays" then [] else ["scalararg"]) ++
+        (if bareOk k then [] else ["scalararg"]) ++
         (match sEval root env (.doc gs) with
          | .ok v => strictReasons k [v]
          | .error _ => [])
       else if k = "$and" || k = "$or" then
-        ["scalararg"] ++ okReasons (sEval root env (.doc gs)) ++ rExpr root env (.doc gs)
+        okReasons (sEval root env (.doc gs)) ++ rExpr root env (.doc gs)
       else ["unproved:" ++ k]
     | [(k, v)] =>
       if k = "$literal" then []
@@ -275,17 +276,17 @@ mutual
         okReasons (sEval root env v) ++ rExpr root env v ++
         (match sEval root env v with
          | .ok (some (.arr xs)) => strictReasons k (xs.map some)
-         | .ok (some _) => ["scalararg"]          -- the code iterates over the one operand
+         | .ok (some _) => []                     -- the one value the operator ranges over
          | .ok none => ["accbaremissing"]
          | .error _ => [])
       else if strictOps.contains k then
         unproved k ++ okReasons (sEval root env v) ++ rExpr root env v ++
-        (if unaryOps.contains k || k = "$size" || k = "$concatArrays" then [] else ["scalararg"]) ++
+        (if bareOk k then [] else ["scalararg"]) ++
         (match sEval root env v with
          | .ok r => strictReasons k [r]
          | .error _ => [])
       else if k = "$and" || k = "$or" then
-        ["scalararg"] ++ okReasons (sEval root env v) ++ rExpr root env v
+        okReasons (sEval root env v) ++ rExpr root env v
       else ["unproved:" ++ k]
     | _ => []
   termination_by structural x => x
